@@ -8,6 +8,10 @@ pub struct GC {
 
     /// All marked objects during a run.
     mark_bitmap: bv::BitVec,
+
+    /// Arrays reached during a run that are not managed by this collector
+    /// (e.g. a result that was handed to the caller while a variable still refers to it)
+    visited_unmanaged: Vec<Object>,
 }
 
 impl GC {
@@ -16,6 +20,7 @@ impl GC {
         Self {
             objects: Vec::new(),
             mark_bitmap: bv::BitVec::new(),
+            visited_unmanaged: Vec::new(),
         }
     }
 
@@ -87,6 +92,8 @@ impl GC {
             }
         }
 
+        self.visited_unmanaged.clear();
+
         // Sweep all unreachable objects
         self.sweep();
 
@@ -122,14 +129,30 @@ impl GC {
         }
 
         // The mark bit of an object lives at its position in the list of managed objects.
-        // Objects that are not managed by this collector are not ours to mark (or sweep).
         let index = match self
             .objects
             .iter()
             .position(|a| std::ptr::eq(a.as_ptr(), o.as_ptr()))
         {
             Some(index) => index,
-            None => return,
+            None => {
+                // Not ours to mark (or sweep), but an array may still refer to objects that are:
+                // look inside it, once per run
+                if o.tag() == Type::Array
+                    && !self
+                        .visited_unmanaged
+                        .iter()
+                        .any(|a| std::ptr::eq(a.as_ptr(), o.as_ptr()))
+                {
+                    self.visited_unmanaged.push(*o);
+
+                    // Safety: we already checked the type.
+                    for v in unsafe { o.as_vec_unchecked() } {
+                        self.mark(v);
+                    }
+                }
+                return;
+            }
         };
 
         if o.tag() == Type::Array {
